@@ -123,7 +123,7 @@ def spec_hash():
     return tree_hash([SPEC], exts={".tla", ".cfg"})
 
 
-def gen(family_mc, base_cfg, consts, tag, env=None, timeout=3600, must_hold=True):
+def gen(family_mc, base_cfg, consts, tag, env=None, timeout=2400, must_hold=True):
     """Runs the model-checking/generation configuration of a family.  TLC
     checks the family's invariants (Level I => Level A, algebraic laws) and the
     action constraint emits the cases.  Cached by the hash of the whole spec
